@@ -279,8 +279,9 @@ class Layout:
         self.crlf = crlf
         self.out = []
 
-    def tok(self, s):
-        self.out.append(("t", b(s)))
+    def tok(self, s, kind="t"):
+        """kind: "t" keyword/punctuation, "tf" field or variant name, "tt" type name, "ti" interface name"""
+        self.out.append((kind, b(s)))
 
     def raw_gap(self, s):
         if s:
@@ -330,7 +331,7 @@ class Layout:
         if k in PRIMS:
             self.tok(k)
         elif k == "custom":
-            self.tok(t["n"])
+            self.tok(t["n"], "tt")
         elif k == "opt":
             self.tok("?")
             self.type(t["i"])
@@ -354,7 +355,7 @@ class Layout:
                     self.comment_lines(f["comments"])
                 else:
                     self.dropped_comment_lines()
-                self.tok(f["name"])
+                self.tok(f["name"], "tf")
                 self.gap("")
                 self.tok(":")
                 self.gap(" ")
@@ -372,7 +373,7 @@ class Layout:
             for v in vs:
                 self.comment_lines(v["comments"], "\t")
                 self.raw_gap("\t")
-                self.tok(v["name"])
+                self.tok(v["name"], "tf")
                 self.raw_gap("\n")
             self.tok(")")
             return
@@ -386,7 +387,7 @@ class Layout:
                 self.comment_lines(v["comments"])
             elif self.mode != "canonical":
                 self.dropped_comment_lines()
-            self.tok(v["name"])
+            self.tok(v["name"], "tf")
         self.gap("")
         self.tok(")")
 
@@ -400,7 +401,7 @@ class Layout:
                 self.tok(",")
                 self.gap(" ", liberal_ok=False)
             self.comment_lines(f["comments"])
-            self.tok(f["name"])
+            self.tok(f["name"], "tf")
             self.gap("")
             self.tok(":")
             self.gap(" ")
@@ -413,7 +414,7 @@ class Layout:
         if kind == "type":
             self.tok("type")
             self.gap(" ", nonempty=True, liberal_ok=False)
-            self.tok(m["name"])
+            self.tok(m["name"], "tt")
             self.gap(" ")
             if m["k"] == "obj":
                 self.fields(m["fields"])
@@ -422,7 +423,7 @@ class Layout:
         elif kind == "method":
             self.tok("method")
             self.gap(" ", nonempty=True, liberal_ok=False)
-            self.tok(m["name"])
+            self.tok(m["name"], "tt")
             self.gap("")
             self.fields(m["inputs"])
             self.gap(" ")
@@ -432,7 +433,7 @@ class Layout:
         else:
             self.tok("error")
             self.gap(" ", nonempty=True, liberal_ok=False)
-            self.tok(m["name"])
+            self.tok(m["name"], "tt")
             self.gap(" ")
             self.fields(m["fields"])
 
@@ -442,7 +443,7 @@ class Layout:
         self.comment_lines(src["comments"])
         self.tok("interface")
         self.gap(" ", nonempty=True, liberal_ok=False)
-        self.tok(src["name"])
+        self.tok(src["name"], "ti")
         for kind, m in src["members"]:
             if self.mode == "canonical":
                 self.raw_gap("\n\n")
@@ -472,7 +473,7 @@ NONASCII = ["\u00e9", "\u00a0", "\u2028", "\u2003", "\u3000", "\U0001F680", "\u0
 
 def mutate(rng, pieces):
     """One mutation of a laid-out text; returns (kind, bytes)."""
-    toks = [j for j, (k, _) in enumerate(pieces) if k == "t"]
+    toks = [j for j, (k, _) in enumerate(pieces) if k.startswith("t")]
     kind = rng.choice(["del_tok", "dup_tok", "swap_tok", "del_gap", "illegal", "nonascii", "case", "kw_glue",
                        "del_tok", "swap_tok", "illegal"])
     ps = list(pieces)
@@ -491,7 +492,7 @@ def mutate(rng, pieces):
             del ps[rng.choice(gaps)]
     elif kind == "case" and toks:
         j = rng.choice(toks)
-        ps[j] = ("t", ps[j][1].swapcase())
+        ps[j] = (ps[j][0], ps[j][1].swapcase())
     elif kind == "kw_glue":
         # drop the gap after a keyword / before a name
         for j in range(len(ps) - 1):
@@ -587,3 +588,27 @@ def gen_build_tree(rng, mode):
                               "variants": [{"name": field_name(rng), "comments": comments(rng, 1.0)}],
                               "comments": comments(rng, 0.3)})
     return tree
+
+
+def near_miss_names(rng, pieces, per_text=6):
+    """Texts in which one name is replaced by a near miss of its character class (leading or
+    trailing or doubled underscore, leading digit, dash, dot, wrong case, non-ASCII letter)."""
+    out = []
+    names = [j for j, (k, _) in enumerate(pieces) if k in ("tf", "tt", "ti")]
+    rng.shuffle(names)
+    for j in names[:per_text]:
+        k, n = pieces[j]
+        s = n.decode()
+        if k == "tf":
+            vs = ["_" + s, s + "_", s[:1] + "__" + s[1:], "9" + s, s + "-x", s + ".x", "\u00e9" + s, s + "_9", s[:1] + "_" + s[1:]]
+        elif k == "tt":
+            vs = [s[:1].lower() + s[1:], "_" + s, s + "_x", "9" + s, s + "-", s + ".", s + "\u00e9"]
+        else:
+            first = s.split(".")[0]
+            vs = [s + ".", s + "-", "." + s, s.replace(".", "..", 1), s + "._x", "-" + s, first, "9" + s, s + ".-a",
+                  s.replace(".", "-.", 1), s + "_"]
+        v = rng.choice(vs)
+        ps = list(pieces)
+        ps[j] = (k, v.encode())
+        out.append((k, text_of(ps)))
+    return out
